@@ -283,6 +283,7 @@ static void runBlock(OrRunner<T>& runner, const std::vector<Program>& progs, lon
 
 void runC40() {
   const bool th = vrt::thorough();
+  vrt::leakCheckEvery(16);
   // concrete alphabet: every (op, a, b) with a, b in 0..2 (b only matters for binary ops)
   std::vector<Op> alpha;
   for (int c = 0; c < kOrNumOps; ++c) {
